@@ -1,6 +1,6 @@
 (* C03 — zip/jar members survive the rewrite and timestamps are exactly clamped.
    Property theorems only: each is closed by `exact <lemma>`. *)
-From AD Require Import Bytes Outcome Gen Date Cp437 Zip ZipProofs.
+From AD Require Import Bytes Outcome Gen Date Cp437 Zip ZipProofs ZipRoundTrip.
 
 (* obligation on the regenerated tables: magics, patch offsets (local +10, central +12 and +38, shift 16),
    time word before date word, comparison operators and the size heuristic are those the model uses *)
@@ -63,6 +63,18 @@ Theorem C03_member_fields : forall x e o, copy_entry x e = Ok o ->
      N.of_nat (length (zo_data o)) = ze_csize e.
 Proof. exact copy_entry_fields. Qed.
 
+(* the archive the writer produces is a valid archive for the reader and holds exactly the members written:
+   same number and order, and copying them out again gives the same names, methods, times, CRCs, sizes and
+   data (attributes as raw_copy_file re-derives them: renorm).  Side conditions: every field fits its width
+   (wf_zout), fewer than 65535 members, sizes below 4 GiB, and the 20 bytes before the end record do not
+   happen to start with the zip64-locator signature (no_locator) *)
+Theorem C03_output_reads_back : forall l,
+  Forall wf_zout l -> N.of_nat (length l) < 65535 ->
+  N.of_nat (length (locals_of l)) < 4294967295 -> N.of_nat (length (central_of l)) < 4294967296 ->
+  no_locator (zip_write l) ->
+  exists es, zip_read (zip_write l) = Some es /\ length es = length l /\ copy_all (zip_write l) es = Ok (map renorm l).
+Proof. exact zip_members_read_back. Qed.
+
 Print Assumptions C03_layout.
 Print Assumptions C03_local_patch.
 Print Assumptions C03_central_patch.
@@ -72,3 +84,4 @@ Print Assumptions C03_clamp.
 Print Assumptions C03_process.
 Print Assumptions C03_member_count.
 Print Assumptions C03_member_fields.
+Print Assumptions C03_output_reads_back.
